@@ -311,7 +311,11 @@ def runShape {α : Type} (F : FOps α) : List String → String
     | some x =>
       let n := F.card - 1
       let fs := (Auxmath.factorize 64 n).map (·.1)
-      toString (!F.isZero x && F.isOne (F.pow x n) && fs.all fun r => !F.isOne (F.pow x (n / r)))
+      -- the generator must be a canonical element too: it must be the representative that arithmetic produces
+      -- (`x·1`) and its wire form must be the canonical one (C01: every result is canonical, so that Equal,
+      -- printing and table look-ups agree)
+      let canonical := F.enc (F.mul x F.one) == g && F.enc x == g
+      toString (canonical && !F.isZero x && F.isOne (F.pow x n) && fs.all fun r => !F.isOne (F.pow x (n / r)))
   | ["elements"] =>
     -- 0, g^0, g^1, … as the code enumerates (binfield / extfield) or 0..p-1 (primefield); sorted encodings
     let gen := F.gen
